@@ -144,4 +144,29 @@ def sLine (ws : List String) : String := Id.run do
   if want ≠ got then issues := issues ++ [s!"ORACLE C15 match_list returned {got}, expected {want} (matching items, stable, descending score)"]
   if issues.isEmpty then "ok" else " ## ".intercalate issues
 
+/-- `N cfg= pre= k= ext= hr<c>= hay<c>= atoms<c>= col<c>= … multi=` — `MultiPattern::score` over `k` columns -/
+def nLine (ws : List String) : String := Id.run do
+  let get := fun k => (field ws k).getD ""
+  let cfgId := (get "cfg").toNat?.getD 0
+  let pre := get "pre"
+  let cfg := { cfgOfId cfgId with ignoreCase := pre.startsWith "1", normalize := (pre.drop 1).toString.startsWith "1" }
+  let ext := parseExt (get "ext")
+  let k := (get "k").toNat?.getD 0
+  let cols : List (List Atom × (Rep × List Nat) × Option Nat) := (List.range k).map fun c =>
+    (parseAtoms (get s!"atoms{c}"), (repOf (get s!"hr{c}"), parseCps (get s!"hay{c}")), (parseResDots (get s!"col{c}")).1)
+  let multi := (parseResDots (get "multi")).1
+  let mut issues : List String := []
+  -- oracle, on the implementation's own per-column results: conjunction across columns, scores summed
+  let each := cols.map (·.2.2)
+  let want : Option Nat := if each.all (·.isSome) then some (each.foldl (fun acc x => acc + x.getD 0) 0) else none
+  if multi ≠ want then
+    issues := issues ++ [s!"ORACLE C15 multi-column score {multi} but the columns' own patterns give {each} on their columns (conjunction / sum: {want}); patterns per column: {cols.map (fun c => c.1.length)} atoms"]
+  -- model
+  for (c, i) in cols.zipIdx do
+    let m := patternEval c.1 cfg ext c.2.1.1 c.2.1.2
+    if m.map (·.1) ≠ c.2.2 then issues := issues ++ [s!"DIFF column {i}: model {m.map (·.1)} impl {c.2.2}"]
+  let mm := multiEval cfg ext (cols.map (·.1)) (cols.map (·.2.1))
+  if mm ≠ multi then issues := issues ++ [s!"DIFF multi-column score: model {mm} impl {multi}"]
+  if issues.isEmpty then "ok" else " ## ".intercalate issues
+
 end NucleoVerif.Driver
